@@ -8,7 +8,7 @@ use refimpl::wire::{self, FpUpdate, Rect};
 use serde::{Deserialize, Serialize};
 
 pub const LEVEL: &str = "exploration";
-pub const RULE: &str = "aligned-sizes: PDUs whose frame / body / bitmap data size is 1024, 1500, 2048, 4096, k x 8192, 32764 (+-3), each followed by further PDUs already in the stream (queued delivery: a reader that reads too far swallows the next PDU); after-malformed-update: a bitmap-coded update whose updateType is not 1 (what the client makes of that PDU is not asserted; if it goes on, the following PDUs must be exact). case = sequence of 1..8 fast-path output PDUs, each with 0..6 updates (bitmap with 0..5 rectangles, synchronize, pointer-null, well-formed colour pointer, and unsupported/unknown update codes), every rectangle field a boundary-biased u16, flags in {0, 0x0001 with TS_CD_HEADER, 0x0401, 0x0400}, data lengths 0..largest that fits, short and long fast-path length forms, free numEvents/flag bits. Oracle: the list of RdpEvent::Bitmap values passed to the callback equals, element for element and in order, the rectangles of the reference fast-path description (position, size, bpp, compression bit, data); no other event is produced; every read returns Ok. Non-trivial = a PDU with >= 2 updates, >= 2 rectangles, or a non-bitmap update before a bitmap one; distinct by hash of the case.";
+pub const RULE: &str = "aligned-sizes: PDUs whose frame / body / bitmap data size is 1024, 1500, 2048, 4096, k x 8192, 32764 (+-3), each followed by further PDUs already in the stream (queued delivery: a reader that reads too far swallows the next PDU); server-variants: 256 variants of what the server said during connection setup (reported version, maximum MCS PDU size down to 1056, capability list order / subsets, general extraFlags with and without NO_BITMAP_COMPRESSION_HDR / FASTPATH_OUTPUT) x rectangles of every flag combination and PDUs above the negotiated MCS PDU size; after-malformed-update: a bitmap-coded update whose updateType is not 1 (what the client makes of that PDU is not asserted; if it goes on, the following PDUs must be exact). case = sequence of 1..8 fast-path output PDUs, each with 0..6 updates (bitmap with 0..5 rectangles, synchronize, pointer-null, well-formed colour pointer, and unsupported/unknown update codes), every rectangle field a boundary-biased u16, flags in {0, 0x0001 with TS_CD_HEADER, 0x0401, 0x0400}, data lengths 0..largest that fits, short and long fast-path length forms, free numEvents/flag bits. Oracle: the list of RdpEvent::Bitmap values passed to the callback equals, element for element and in order, the rectangles of the reference fast-path description (position, size, bpp, compression bit, data); no other event is produced; every read returns Ok. Non-trivial = a PDU with >= 2 updates, >= 2 rectangles, or a non-bitmap update before a bitmap one; distinct by hash of the case.";
 
 #[derive(Serialize, Deserialize, Hash, Clone, Debug)]
 pub struct Pdu {
@@ -25,6 +25,37 @@ pub struct Case {
     /// all PDUs are in the stream before the first read (what follows a PDU is then visible to a reader that reads too far)
     #[serde(default)]
     pub queued: bool,
+    /// what the server said while the connection was set up (0 = the usual server): reported version, negotiated maximum MCS
+    /// PDU size, capability list of the demand-active (order, subsets, general extraFlags) — none of it changes what a
+    /// fast-path bitmap update means
+    #[serde(default)]
+    pub server: u8,
+}
+
+/// the server profile of a variant: fast-path delivery must not depend on it
+pub fn profile_of(variant: u8, user_id: u16, share: u32) -> ServerProfile {
+    let mut p = ServerProfile::simple(user_id, share);
+    if variant == 0 {
+        return p;
+    }
+    let v = variant as usize;
+    p.ccrsp = crate::props::c12::profile_of((v % 8) as u8).ccrsp;
+    p.domain_params[6] = [0xfff8u32, 0xffff, 0x420, 1056, 0x1000, 0x7fff, 0x4000, 0x10000][(v / 3) % 8];
+    p.domain_params[0] = [34u32, 22, 3, 0xffff][(v / 5) % 4];
+    let mut caps = crate::props::hostile::caps_variant((v % 10) as u8);
+    // the general capability set's extraFlags: without NO_BITMAP_COMPRESSION_HDR, without FASTPATH_OUTPUT, zero, all ones
+    let extra = [0x041du16, 0x001d, 0x0000, 0x0401, 0xffff, 0x0400][(v / 7) % 6];
+    for (t, body) in caps.iter_mut() {
+        if *t == 1 && body.len() >= 12 {
+            body[10] = extra as u8;
+            body[11] = (extra >> 8) as u8;
+        }
+    }
+    if (v / 11) % 3 == 1 {
+        caps.retain(|(t, _)| *t != 1);
+    }
+    p.activations[0].caps = caps;
+    p
 }
 
 /// a PDU with a bitmap-coded update that is not a bitmap update (updateType != 1): what the client makes of that PDU is
@@ -67,7 +98,10 @@ pub fn run(c: &Case) -> Outcome {
         }
     }
     out.nontrivial(nt);
-    let (mut conn, h) = match mem::activated_session(&ClientCfg::simple(), ServerProfile::simple(c.user_id, 0x1234_5678)) {
+    if c.server != 0 {
+        out.label("other-server-profile");
+    }
+    let (mut conn, h) = match mem::activated_session(&ClientCfg::simple(), profile_of(c.server, c.user_id, 0x1234_5678)) {
         Ok(x) => x,
         Err(e) => {
             out.fail("panic:HARNESS-FAULT c10 session setup", e);
@@ -211,7 +245,7 @@ fn many_case(n_updates: usize, n_rects: usize, user_id: u16) -> Case {
         updates.push(if i % 3 == 0 { FpUpdate::Bitmap(vec![tiny(i)]) } else if i % 3 == 1 { FpUpdate::Synchronize } else { FpUpdate::PointerNull });
     }
     updates.push(FpUpdate::Bitmap((0..n_rects).map(|i| tiny(10_000 + i)).collect()));
-    Case { pdus: vec![Pdu { updates, first: 0, long_len: true }, Pdu { updates: vec![FpUpdate::Bitmap(vec![tiny(7)])], first: 0, long_len: false }], chunk: 0, user_id, queued: false }
+    Case { pdus: vec![Pdu { updates, first: 0, long_len: true }, Pdu { updates: vec![FpUpdate::Bitmap(vec![tiny(7)])], first: 0, long_len: false }], chunk: 0, user_id, queued: false, server: 0 }
 }
 
 /// the generator without the PDUs of hundreds of elements (each costs milliseconds: a coverage-guided campaign that
@@ -233,6 +267,7 @@ fn decode_inner(s: &mut Src, many: bool) -> Case {
         return many_case(nu, nr, 1004);
     }
     let queued = s.chance(100);
+    let server = if s.chance(100) { s.u8() } else { 0 };
     let n = 1 + s.below(8);
     let mut pdus = Vec::new();
     for _ in 0..n {
@@ -241,7 +276,7 @@ fn decode_inner(s: &mut Src, many: bool) -> Case {
         let updates = (0..k).map(|_| gen_update(s, &mut budget)).collect();
         pdus.push(Pdu { updates, first: s.u8() & 0x3C, long_len: s.bool() });
     }
-    Case { pdus, chunk: s.pick(&[0u16, 0, 1, 5, 1460]), user_id: s.pick(&[1004u16, 1001, 65535, 0x8000]), queued }
+    Case { pdus, chunk: s.pick(&[0u16, 0, 1, 5, 1460]), user_id: s.pick(&[1004u16, 1001, 65535, 0x8000]), queued, server }
 }
 
 /// the same streams through the real entry point: Connector::connect over TLS, fast-path PDUs sent by the server
@@ -339,7 +374,7 @@ pub fn check(rep: &Report) {
                     Pdu { updates: vec![one(8, 4)], first: 0, long_len: true },
                 ];
                 for (queued, chunk) in [(true, 0u16), (true, 1460), (false, 0)] {
-                    aligned.push(Case { pdus: pdus.clone(), chunk, user_id: 1004, queued });
+                    aligned.push(Case { pdus: pdus.clone(), chunk, user_id: 1004, queued, server: 0 });
                 }
             }
         }
@@ -363,16 +398,29 @@ pub fn check(rep: &Report) {
                     Pdu { updates: vec![one(12, 3), one(4, 4)], first: 0, long_len: false },
                     Pdu { updates: vec![one(8, 5)], first: 0, long_len: false },
                 ];
-                mal.push(Case { pdus, chunk: 0, user_id: 1004, queued: false });
+                mal.push(Case { pdus, chunk: 0, user_id: 1004, queued: false, server: 0 });
             }
         }
     }
     rep.list("after-malformed-update", mal, run);
+    // every server variant x rectangles of every flag combination and of sizes below / above the negotiated MCS PDU size
+    let mut sv = Vec::new();
+    for server in 0..=255u8 {
+        let rect = |flags: u16, len: usize, i: u16| Rect { left: i, top: 2, right: i + 1, bottom: 3, width: 2, height: 2, bpp: 16, flags, cd_scan_width: 4, cd_uncompressed: 8, data: (0..len).map(|j| (j as u8).wrapping_mul(3) | 1).collect() };
+        let pdus = vec![
+            Pdu { updates: vec![FpUpdate::Bitmap(vec![rect(0x0401, 24, 1), rect(0x0001, 24, 2), rect(0, 8, 3), rect(0x0400, 9, 4)])], first: 0, long_len: false },
+            Pdu { updates: vec![FpUpdate::Bitmap(vec![rect(0x0401, 1100, 5)]), FpUpdate::Bitmap(vec![rect(0, 2100, 6)])], first: 0, long_len: true },
+            Pdu { updates: vec![FpUpdate::Bitmap(vec![rect(0x0001, 9000, 7), rect(0x0401, 4, 8)])], first: 0, long_len: true },
+        ];
+        sv.push(Case { pdus, chunk: 0, user_id: 1004, queued: server % 2 == 0, server });
+    }
+    rep.list("server-variants", sv, run);
     rep.random("streams", rep.tier.n(60_000, 4_000_000), 400, decode, run);
     crate::tls::pki();
     rep.random("tls", rep.tier.n(300, 10_000), 300, decode, run_tls);
     rep.require("streams", "non-bitmap-before-bitmap", 1000);
     rep.require("streams", "multi-bitmap-update", 1000);
     rep.require("streams", "queued", 1000);
+    rep.require("streams", "other-server-profile", 1000);
     rep.require("streams", "malformed-bitmap-update", 500);
 }
